@@ -56,8 +56,8 @@ CONFIG = dict(
         "C09_code_rechecks", "C09_code_release_sites", "C09_code_streams", "C09_code_oldstyle",
         "C09_invariant", "C09_no_orphan", "C09_no_orphan_code", "C09_no_orphan_code_full",
         "C09_late_creation_closed", "C09_single_publisher", "C09_single_publisher_code",
-        "C09_race_loser_closed", "C09_doClose_closes", "C09_epoch_monotone", "C09_release_bumps",
-        "C09_close_bumps", "C09_stamp_at_begin", "C09_exec_reachable", "C09_asIs_orphan",
+        "C09_race_loser_closed", "C09_doClose_closes", "C09_epoch_monotone", "C09_no_release_between", "C09_release_bumps",
+        "C09_close_bumps", "C09_closeCancel_closes", "C09_stamp_at_begin", "C09_exec_reachable", "C09_asIs_orphan",
         "C09_early_sweep_orphan", "C09_early_sweep_orphan_code"]],
     generated=["Mcu"],
     harness=dict(pkg="signaling", test="TestVerifC09", go="go1.26"),
